@@ -1,5 +1,6 @@
 import I18n.Model.Cli
 import I18n.Generated.StateSites
+import I18n.Lemmas.CliState
 /-!
 # C03 (composition clause) — multi-file output is the concatenation of the single-file outputs
 
@@ -129,5 +130,168 @@ example : (creationSites.filter (fun s => s.role == "checker-instance")).length 
 example : StateKind.impureCache.benign = false ∧ StateKind.perFileMutated.benign = false ∧ OrderVerdict.unsorted.benign = false
     ∧ MutRoot.sharedParam.perCall = false ∧ MutRoot.classState.perCall = false ∧ NondetKind.other.benign = false := by decide
 end Pins
+
+/-! ## The per-file path with explicit global state (`Model/CliState.lean`)
+
+`G` = (patched flag, cache table): the components of the state inventory that are written after import.  A per-file
+program can observe `G` only by calling a memoised function.  Hypothesis `KeyDetermines proj f` is the meaning of kind
+`pureCache`: the cache key determines the value.  `Inv g` (patched ∧ every cached value is the function's value) holds in
+the state `main` creates and is preserved by every file, in the parent and in every pool worker. -/
+section State
+open I18n.CliState
+variable {K K' V O F : Type} [DecidableEq K']
+variable {proj : K → K'} {f : K → V} (unpackDeb : O → Bool)
+variable (checkRegular : O → F → Prog K V) (checkDeb : O → F → Option (Prog K V))
+
+/-- **No history**: in every reachable global state, after ANY list of files checked earlier in the same process (any
+    prefix, any permutation, any repetition — `hist` is arbitrary), the lines printed for `file` are those of the
+    file checked alone in a fresh process: `out o file` mentions neither `g` nor `hist`. -/
+theorem no_history (hkey : KeyDetermines proj f) (o : O) (g : G K' V) (hg : Inv proj f g) (hist : List F) (file : F) :
+    (step proj f unpackDeb checkRegular checkDeb o (seqRun proj f unpackDeb checkRegular checkDeb o g hist).1 file).2
+      = .ok (out f unpackDeb checkRegular checkDeb o file) :=
+  (step_inv unpackDeb checkRegular checkDeb hkey o _ file
+    (seqRun_inv unpackDeb checkRegular checkDeb hkey o hist g hg).2).1
+
+/-- the blocks printed by the sequential loop are, one by one, the single-run outputs -/
+theorem seq_blocks_are_single_runs (hkey : KeyDetermines proj f) (o : O) :
+    ∀ (files : List F) (g : G K' V), Inv proj f g →
+      seqBlocks proj f unpackDeb checkRegular checkDeb o g files
+        = files.map (fun p => .ok (out f unpackDeb checkRegular checkDeb o p)) := by
+  intro files
+  induction files with
+  | nil => intro g _; rfl
+  | cons file rest ih =>
+    intro g hg
+    have hs := step_inv unpackDeb checkRegular checkDeb hkey o g file hg
+    simp only [seqBlocks, List.map_cons, hs.1, ih _ hs.2]
+
+/-- permuting the argument list permutes the blocks and changes none of them -/
+theorem no_history_perm (hkey : KeyDetermines proj f) (o : O) (g : G K' V) (hg : Inv proj f g) (l1 l2 : List F)
+    (h : l1.Perm l2) :
+    (seqBlocks proj f unpackDeb checkRegular checkDeb o g l1).Perm
+      (seqBlocks proj f unpackDeb checkRegular checkDeb o g l2) := by
+  rw [seq_blocks_are_single_runs unpackDeb checkRegular checkDeb hkey o l1 g hg,
+      seq_blocks_are_single_runs unpackDeb checkRegular checkDeb hkey o l2 g hg]
+  exact h.map _
+
+/-- **Multi-file output = concatenation of the single-file outputs**, at full strength: for every reachable global state,
+    every job count `j`, every assignment of tasks to pool workers and every execution order `sched` in which each task is
+    run (workers keep their own state between the tasks they get). -/
+theorem multi_file_concat (hkey : KeyDetermines proj f) (o : O) (j : Nat) (g : G K' V) (hg : Inv proj f g)
+    (paths : List F) (sched : List (Nat × Nat)) (hall : ∀ i, i < paths.length → i ∈ sched.map (·.1)) :
+    (CliState.checkAll proj f unpackDeb checkRegular checkDeb o j g paths sched).2
+      = .ok ((paths.map (out f unpackDeb checkRegular checkDeb o)).flatten) := by
+  unfold CliState.checkAll
+  split
+  · exact (seqRun_inv unpackDeb checkRegular checkDeb hkey o paths g hg).1
+  · simp only
+    have : (List.range paths.length).map (fun i =>
+        ((parExec proj f unpackDeb checkRegular checkDeb o paths sched (fun _ => g)).find? (fun q => q.1 == i)).map (·.2))
+        = (paths.map (out f unpackDeb checkRegular checkDeb o)).map (fun x => some (Except.ok x)) := by
+      apply List.ext_getElem
+      · simp
+      · intro i h1 h2
+        simp only [List.getElem_map, List.getElem_range]
+        have hi : i < paths.length := by simpa using h1
+        exact parExec_find unpackDeb checkRegular checkDeb hkey o paths sched _ (fun _ => hg) i paths[i]
+          (List.getElem?_eq_getElem hi) (hall i hi)
+    rw [this, collect_all_ok]
+
+/-- a single-file invocation (`-j 1`, nothing scheduled) prints `out o file` -/
+theorem single_file_run (hkey : KeyDetermines proj f) (o : O) (g : G K' V) (hg : Inv proj f g) (file : F) :
+    (CliState.checkAll proj f unpackDeb checkRegular checkDeb o 1 g [file] []).2
+      = .ok (out f unpackDeb checkRegular checkDeb o file) := by
+  have h := (seqRun_inv unpackDeb checkRegular checkDeb hkey o [file] g hg).1
+  simpa [CliState.checkAll] using h
+
+/-- the state `main` hands to `check_all`, starting from a freshly imported interpreter, satisfies the invariant -/
+theorem fresh_patched_inv : ∀ g1, patchEnvironment (fresh : G K' V) = .ok g1 → Inv proj f g1 := by
+  intro g1 h
+  simp only [patchEnvironment, fresh] at h
+  cases h
+  exact ⟨rfl, consistent_nil proj f⟩
+
+/-- **`main` end to end**: from a fresh process, for every file list, job count and schedule, `main` raises neither
+    `EnvironmentAlreadyPatched` nor `EnvironmentNotPatched`, exits with status 0 and prints the concatenation, in argument
+    order, of what `main` prints for each file alone with `-j 1`. -/
+theorem main_concat_of_single_runs (hkey : KeyDetermines proj f) (o : O) (j : Nat) (files : List F)
+    (sched : List (Nat × Nat)) (hall : ∀ i, i < files.length → i ∈ sched.map (·.1)) :
+    CliState.main proj f unpackDeb checkRegular checkDeb o j fresh files sched
+      = (.ok ((files.map (out f unpackDeb checkRegular checkDeb o)).flatten), 0)
+    ∧ ∀ file, CliState.main proj f unpackDeb checkRegular checkDeb o 1 fresh [file] []
+      = (.ok (out f unpackDeb checkRegular checkDeb o file), 0) := by
+  have hinv : Inv proj f ({ patched := true, cache := [] } : G K' V) := ⟨rfl, consistent_nil proj f⟩
+  have hp : patchEnvironment (fresh : G K' V) = .ok { patched := true, cache := [] } := rfl
+  constructor
+  · simp only [CliState.main, hp]
+    rw [multi_file_concat unpackDeb checkRegular checkDeb hkey o j _ hinv files sched hall]
+  · intro file
+    simp only [CliState.main, hp]
+    rw [single_file_run unpackDeb checkRegular checkDeb hkey o _ hinv file]
+
+/-- the once-flag does its job: a second `patch_environment` in the same process is refused, and a Checker created
+    before the first one is refused (the two exceptions of lib/check/__init__.py) -/
+omit [DecidableEq K'] in
+theorem patch_environment_once (g : G K' V) (hg : g.patched = true) :
+    patchEnvironment g = .error .environmentAlreadyPatched := by
+  simp [patchEnvironment, hg]
+
+theorem unpatched_checker_refused (o : O) (g : G K' V) (hg : g.patched = false) (file : F) :
+    step proj f unpackDeb checkRegular checkDeb o g file = (g, .error .environmentNotPatched) := by
+  simp [step, hg]
+
+end State
+
+/-! ### What the `pureCache` pin excludes: a cache keyed on less than its inputs (seeded change C03-a)
+
+`polib_unescape` memoised on the escaped text alone, while its value also depends on the charset of the file being parsed.
+Two files with the same escaped text and different charsets: the second file is printed with the first file's decoding. -/
+section Stale
+open I18n.CliState
+
+/-- key = (escaped text, charset of the file on the stack); the cache sees the text only -/
+def staleProj : String × String → String := Prod.fst
+/-- decoding depends on the charset -/
+def staleF : String × String → String := fun k => k.2 ++ ":" ++ k.1
+/-- a file = its declared charset; it contains the escaped text `\xa4` and prints its decoding -/
+def staleCheck : Unit → String → Prog (String × String) String :=
+  fun _ cs => .ask ("\\xa4", cs) (fun v => .done [v])
+def lines : Except Err (List String) → List String
+  | .ok l => l
+  | .error _ => ["<exception>"]
+
+/-- the lossy key does not determine the value … -/
+theorem stale_key_does_not_determine : ¬ KeyDetermines staleProj staleF := by
+  intro h
+  have := h ("x", "a") ("x", "b") rfl
+  simp [staleF] at this
+
+/-- … and history becomes visible: after `latin1.po`, `latin9.po` is printed with the Latin-1 decoding, which is not what
+    `latin9.po` prints alone; with the full key (`proj = id`) the same run is history-free. -/
+theorem stale_cache_breaks_no_history :
+    let g0 : G String String := { patched := true, cache := [] }
+    let run := fun (hist : List String) =>
+      lines (step staleProj staleF (fun _ => false) staleCheck (fun _ _ => none) ()
+              (seqRun staleProj staleF (fun _ => false) staleCheck (fun _ _ => none) () g0 hist).1 "ISO-8859-15").2
+    run [] = ["ISO-8859-15:\\xa4"] ∧ run ["ISO-8859-1"] = ["ISO-8859-1:\\xa4"] ∧ run ["ISO-8859-1"] ≠ run [] := by
+  decide
+
+example :
+    let g0 : G (String × String) String := { patched := true, cache := [] }
+    let run := fun (hist : List String) =>
+      lines (step id staleF (fun _ => false) staleCheck (fun _ _ => none) ()
+              (seqRun id staleF (fun _ => false) staleCheck (fun _ _ => none) () g0 hist).1 "ISO-8859-15").2
+    run ["ISO-8859-1"] = run [] := by
+  decide
+
+/-- non-vacuity of `multi_file_concat`: three files, two workers, worker 0 gets tasks 2 then 0, worker 1 gets task 1;
+    the cache is shared by the tasks of a worker -/
+example :
+    lines (CliState.checkAll id staleF (fun _ => false) staleCheck (fun _ _ => none) () 2
+            ({ patched := true, cache := [] } : G (String × String) String)
+            ["ISO-8859-1", "ISO-8859-15", "ISO-8859-1"] [(2, 0), (1, 1), (0, 0)]).2
+      = ["ISO-8859-1:\\xa4", "ISO-8859-15:\\xa4", "ISO-8859-1:\\xa4"] := by
+  decide
+end Stale
 
 end I18n.Props.C03
